@@ -107,11 +107,16 @@ HugeHeads(t) == IF t.k \in {"bytes", "str"} \/ (t.k = "slice" /\ t.t.k \in {"u",
                 THEN SmallHugeHeads
                 ELSE SmallHugeHeads \cup { <<254, 255, 255, 255>>, <<3, 0, 0, 0, 64>>, <<3, 255, 255, 255, 255>> }
 
+(* an uncontrolled mutation that happens to declare more than 2^22 elements is not executed *)
+(* (the "hugelen" mutations cover that class with controlled sizes)                         *)
+TooBig(t, b) == LET r == ScDec(t, b) IN ~r.ok /\ r.why = "length" /\ (r.n = -1 \/ r.n > 4194304)
+
 Mutations(t, v) ==
   LET e == ScEnc(t, v) IN
     {[mut |-> "trunc", b |-> SubSeq(e, 1, k)] : k \in TruncPoints(e) \cap (0..(Len(e) - 1))}
     \cup {[mut |-> "junk", b |-> e \o <<170>>], [mut |-> "junk", b |-> e \o <<0, 0, 0, 0, 0, 0, 0, 0, 0>>]}
-    \cup UNION {{[mut |-> "flip", b |-> [e EXCEPT ![p] = x]] : x \in FlipVals(e[p]) \ {e[p]}} : p \in FlipPos(e)}
+    \cup {m \in UNION {{[mut |-> "flip", b |-> [e EXCEPT ![p] = x]] : x \in FlipVals(e[p]) \ {e[p]}} : p \in FlipPos(e)} :
+              ~TooBig(t, m.b)}
     \cup (IF t.k \in {"compact", "bigint"} THEN {[mut |-> "widen", b |-> w] : w \in ScCompactWidened(v)} ELSE {})
     \cup (IF HasLenPrefix(t)
           THEN {[mut |-> "widen", b |-> w \o ScDrop(e, HeadLen(e))] : w \in ScCompactWidened(BnFromInt(Len(v)))}
@@ -188,9 +193,8 @@ RandVal(t, z) ==
 RandBytes(z) == LET n == RE(0..12, z)
                 IN IF n = 0 THEN <<>> ELSE [i \in 1..n |-> IF RE(1..3, z) = 1 THEN RE(0..255, z) ELSE RE({0, 1, 2, 3, 4, 5, 7, 8, 12, 255}, z)]
 
-RandMut(t, v, z) ==
-  LET e == ScEnc(t, v)
-      c == RE(1..8, z)
+RandMut0(t, v, e, z) ==
+  LET c == RE(1..8, z)
   IN CASE c \in {1, 2} /\ Len(e) > 0 -> [mut |-> "trunc", b |-> SubSeq(e, 1, RE(0..(Len(e) - 1), z))]
        [] c \in {3, 4} /\ Len(e) > 0 -> LET p == RE(1..Len(e), z)
                                             x == RE(FlipVals(e[p]) \cup {RE(0..255, z)}, z)
@@ -200,6 +204,10 @@ RandMut(t, v, z) ==
        [] c = 6 -> [mut |-> "junk", b |-> e \o RandBytes(z)]
        [] c = 7 -> [mut |-> "rand", b |-> RandBytes(z)]
        [] OTHER -> LET M == Mutations(t, v) IN RE(M, z)
+RandMut(t, v, z) ==
+  LET e == ScEnc(t, v)
+      m == RandMut0(t, v, e, z)
+  IN IF m.mut # "hugelen" /\ TooBig(t, m.b) THEN [mut |-> "trunc", b |-> SubSeq(e, 1, Len(e) - 1)] ELSE m
 
 RandCase(z) ==
   LET t == RandTop(z)
